@@ -152,10 +152,10 @@ PROPS["C09"] = {
 PROPS["C16"]["units"] = ["scalars", "engine"]
 PROPS["C16"]["level_text"] = PROPS["C16"]["level_text"] + " In add_tx_to_block the value handed to the EVM site and to the receipt is get_gas_limit(inscription_byte_len) (site precondition); a parked transaction replayed by the drain of add_raw_tx_to_block is given an inscription length whose allowance is at most the allowance recorded when it was parked (site precondition gas_limit_spec(byte_len) <= stored gas)."
 PROPS["C19"] = {
-    "units": ["evmctx", "scalars", "dbfacade", "engine"],
+    "units": ["evmctx", "scalars", "dbfacade", "engine", "dbslot"],
     "kani": [],
-    "level_text": "Proof on the real get_evm body over shim structs carrying revm's public field names: block number, timestamp, prevrandao = supplied hash, basefee 0, difficulty 0, chain id (cfg and tx) = configured, gas price 0, value 0, spec = fork schedule of the height, Bitcoin txid handed to the precompile provider = the supplied one; fork schedule table proved in unit scalars; BLOCKHASH: the revm Database::block_hash callback on its real body answers with the recorded hash of that block (committed or not), zero if there is none, and changes nothing; the Bitcoin txid of a PARKED transaction: set_pending_tx records the supplied txid under the transaction's hash, stamped like the pool entry itself (stamped(..) on both tables, whatever was recorded under that hash before), get_pending_tx_op_return_tx_id reads the current row of that table, and the drain of add_raw_tx_to_block hands what it read for the parked transaction's hash to the execution site.",
-    "level_note": "Narrow. Rule N32 replaces the generic revm type expressions of the signature and of one `let` by the shim names; field assignments are verbatim. Assumed: Context::new defaults, Evm::new_with_inspector keeps ctx and precompiles, BRC20Precompiles::new stores the txid. NOT covered: caller/origin as set inside the closures (modify_tx), the 256-block window of BLOCKHASH (enforced by revm), deposits/withdrawals running as the indexer address.",
+    "level_text": "Proof on the real get_evm body over shim structs carrying revm's public field names: block number, timestamp, prevrandao = supplied hash, basefee 0, difficulty 0, chain id (cfg and tx) = configured, gas price 0, value 0, spec = fork schedule of the height, Bitcoin txid handed to the precompile provider = the supplied one; fork schedule table proved in unit scalars; the execution site of add_tx_to_block's closure (lifted, unit dbslot): the EVM the transaction runs in was built by get_evm for exactly the block number, block hash, timestamp and Bitcoin txid supplied with THIS call, and the transaction environment carries the deriving sender as caller, the supplied target and data, and the nonce and gas limit computed for it; BLOCKHASH: the revm Database::block_hash callback on its real body answers with the recorded hash of that block (committed or not), zero if there is none, and changes nothing; the Bitcoin txid of a PARKED transaction: set_pending_tx records the supplied txid under the transaction's hash, stamped like the pool entry itself (stamped(..) on both tables, whatever was recorded under that hash before), get_pending_tx_op_return_tx_id reads the current row of that table, and the drain of add_raw_tx_to_block hands what it read for the parked transaction's hash to the execution site.",
+    "level_note": "Narrow. Rule N32 replaces the generic revm type expressions of the signature and of one `let` by the shim names; field assignments are verbatim. Assumed: Context::new defaults, Evm::new_with_inspector keeps ctx and precompiles, BRC20Precompiles::new stores the txid. NOT covered: that revm reports tx.caller as both CALLER and ORIGIN, the environment of read-only calls (read_contract*), the 256-block window of BLOCKHASH (enforced by revm), deposits/withdrawals running as the indexer address.",
     "assumptions": ["revm constructors keep what they are given (shim contracts)", "N32: generic revm types replaced by shim structs with the same field names"],
 }
 
